@@ -56,3 +56,23 @@ def read_log(path):
             except ValueError:
                 pass  # a line cut short by a kill
     return ev
+
+
+def selftest_seeded(pid):
+    """./bin/check <ID> --selftest: every stored mutant under seeded/<ID>-* is applied to a scratch
+    worktree (bin/mutant-test) and must be detected, the behaviour-preserving ones must not."""
+    import glob
+    ok = True
+    for d in sorted(glob.glob(os.path.join(core.VERIF, "seeded", pid + "-*"))):
+        patch = os.path.join(d, "patch.diff")
+        if not os.path.exists(patch):
+            continue
+        benign = "benign" in os.path.basename(d)
+        p = subprocess.run([os.path.join(core.VERIF, "bin", "mutant-test"), patch, pid], stdout=subprocess.PIPE,
+                           stderr=subprocess.STDOUT, text=True)
+        detected = p.returncode == 0
+        good = detected != benign
+        ok = ok and good
+        print("%s %s: %s" % ("ok  " if good else "FAIL", os.path.basename(d),
+                             "detected" if detected else "not detected" + (" (as it should be)" if benign else "")), flush=True)
+    return 0 if ok else 1
